@@ -68,16 +68,13 @@ Definition known_K1 (url : string) : bool :=
 (* K2: a configured variable is not declared with !default by the module: silently accepted *)
 Definition known_K2 (decls : list (string * Z * bool)) (cfg : list (string * Z)) : bool :=
   negb (cfg_dup cfg) && negb (forallb (fun kv => declares_default decls (fst kv)) cfg).
-(* K3 (F29): prefix together with show/hide: function names are tested against the variable list
-   and variable names against the function list *)
-Definition known_K3 (pfx : option string) (e : expose) : bool :=
-  match pfx, e with Some _, EShow _ _ | Some _, EHide _ _ => true | _, _ => false end.
+(* (class 3, F29 - prefix filter tested against the wrong list - was fixed by 2f8ada8) *)
 
 Definition known_class (i : cinput) : Z :=
   match i with
   | CNs url => if known_K1 url then 1 else 0
   | CCfg d c => if known_K2 d c then 2 else 0
-  | CFwd p e => if known_K3 p e then 3 else 0
+  | CFwd p e => 0
   | CBuiltin _ => 0
   end%Z.
 
